@@ -1,0 +1,33 @@
+//go:build verif
+
+// Contracts for the deductive checks under /verif (comment-only; no code).
+
+package filestore
+
+// ---- C41: references stay inside the filestore root --------------------------------------
+// insideRoot(root, p): p is root itself or lies below it by path components
+//@ spec insideRoot(root string, p string) bool
+//@ spec strPrefix(s string, prefix string) bool
+// documented behaviour of the standard library (assumed):
+//  - filepath.HasPrefix is a plain string-prefix test (deprecated for exactly that reason)
+//  - filepath.Rel(base, targ) succeeds with a path that starts with ".." iff targ is not
+//    below base (both cleaned by Rel)
+//@ func ext path/filepath.HasPrefix
+//@   ensures result == strPrefix(p, prefix)
+//@ func ext strings.HasPrefix
+//@   ensures result == strPrefix(s, prefix)
+//@ func ext path/filepath.Rel
+//@   ensures err == nil ==> ((result0 == ".." || strPrefix(result0, "../")) <==> !insideRoot(basepath, targpath))
+//@ spec isURLPath(s string) bool
+//@ func IsURL
+//@   assumed
+//@   ensures result == isURLPath(str)
+
+//@ func (*FileManager).putTo
+//@   prop C41
+//@   arith int
+//@   requires f != nil && b != nil && b.PosInfo != nil
+//@   modifies all
+//@   ensures[inside_root] err == nil && !isURLPath(old(b.PosInfo.FullPath)) ==> insideRoot(old(f.root), old(b.PosInfo.FullPath))
+//@   ensures[files_enabled] err == nil && !isURLPath(old(b.PosInfo.FullPath)) ==> old(f.AllowFiles)
+//@   ensures[urls_enabled] err == nil && isURLPath(old(b.PosInfo.FullPath)) ==> old(f.AllowUrls)
